@@ -107,7 +107,7 @@ func (k *Check) OnlyAfter(rule string, fn *ssa.Function, what string, targets *S
 	}
 	if cuts.Len() == 0 && minTargets > 0 {
 		// no instance of the required preceding operation at all
-		hits := Reach(fn, starts, targets, cuts)
+		hits := ReachFacts(fn, starts, targets, cuts)
 		if len(hits) > 0 {
 			h := hits[0]
 			k.add(&Obl{Rule: rule, Construct: construct, Desc: what, Pos: k.hitPos(h), Why: "the required preceding operation does not occur in this function (or its error is dropped)", Path: BlockPath(k.C, fn, h.Path), Sites: targets.Len(), st: Violated})
@@ -118,7 +118,9 @@ func (k *Check) OnlyAfter(rule string, fn *ssa.Function, what string, targets *S
 	if len(starts) > 0 {
 		st = starts
 	}
-	hits := Reach(fn, st, targets, cuts)
+	// correlated-branch aware reachability: prunes only paths that test the same SSA value twice with
+	// contradictory outcomes or branch on a boolean phi against the constant it carries on that path
+	hits := ReachFacts(fn, st, targets, cuts)
 	if len(hits) == 0 {
 		k.add(&Obl{Rule: rule, Construct: construct, Desc: what, Sites: targets.Len() + cuts.Len(), st: Discharged})
 		return true
